@@ -235,10 +235,10 @@ class VdbHarness(Harness):
             both.update(states["after"])
             ok = seen == both
         if not ok:
-            kind = "nothing listed" if not seen else ("partial or unreadable package listed" if any(isinstance(v, str) for v in seen.values()) or "listing" in seen else "a state that is neither the old nor the new one")
+            what = "nothing listed" if not seen else ("partial or unreadable package listed" if any(isinstance(v, str) for v in seen.values()) or "listing" in seen else "a state that is neither the old nor the new one")
             if "same-version-replace-window" in self.active and kind == "vdb" and op == "replace-same-version" and not seen and counter.hit == "rename(.tmp.pkg-1)":
                 return out
-            out["problem"] = f"stopped in {counter.hit}: {kind}"
+            out["problem"] = f"stopped in {counter.hit}: {what}"
             out["seen"] = {k: (v if isinstance(v, str) else sorted(v)) for k, v in seen.items()}
         return out
 
